@@ -73,24 +73,52 @@ func method(files []*ast.File, recv, name string) *ast.FuncDecl {
 	return nil
 }
 
-// x.<field>.<op>() on the receiver: returns op when the call is <recv>.<field>.<op>()
-func lockCall(e ast.Expr, recv, field string) string {
+// x.<field>.<op>() on the receiver: returns op when the call is <recv>.<field>.<op>() (field "" : any field, returned too)
+func lockCallF(e ast.Expr, recv, field string) (string, string) {
 	ce, ok := e.(*ast.CallExpr)
 	if !ok || len(ce.Args) != 0 {
-		return ""
+		return "", ""
 	}
 	se, ok := ce.Fun.(*ast.SelectorExpr)
 	if !ok {
-		return ""
+		return "", ""
+	}
+	switch se.Sel.Name {
+	case "Lock", "RLock", "Unlock", "RUnlock":
+	default:
+		return "", ""
 	}
 	fe, ok := se.X.(*ast.SelectorExpr)
-	if !ok || fe.Sel.Name != field {
-		return ""
+	if !ok || (field != "" && fe.Sel.Name != field) {
+		return "", ""
 	}
 	if id, ok := fe.X.(*ast.Ident); !ok || id.Name != recv {
-		return ""
+		return "", ""
 	}
-	return se.Sel.Name
+	return se.Sel.Name, fe.Sel.Name
+}
+
+func lockCall(e ast.Expr, recv, field string) string {
+	op, _ := lockCallF(e, recv, field)
+	return op
+}
+
+// uniqueFuncBody: the body of the only function or method of these files called name (nil when none or several)
+func uniqueFuncBody(files []*ast.File, name string) *ast.BlockStmt {
+	var found *ast.BlockStmt
+	n := 0
+	for _, f := range files {
+		for _, d := range f.Decls {
+			if fd, ok := d.(*ast.FuncDecl); ok && fd.Body != nil && fd.Name.Name == name {
+				found = fd.Body
+				n++
+			}
+		}
+	}
+	if n != 1 {
+		return nil
+	}
+	return found
 }
 
 func recvName(fd *ast.FuncDecl) string {
@@ -100,41 +128,163 @@ func recvName(fd *ast.FuncDecl) string {
 	return ""
 }
 
-// the function's first two statements are <recv>.<field>.<lock>() and defer <recv>.<field>.<unlock>(), and no other
-// call on that mutex occurs anywhere in the body; returns the lock operation ("Lock" / "RLock") or ""
-func wholeBodyRegion(fd *ast.FuncDecl, field string) string {
+// isUnlockStmt: st is the statement <recv>.<field>.<unlock>()
+func isUnlockStmt(st ast.Stmt, recv, field, unlock string) bool {
+	es, ok := st.(*ast.ExprStmt)
+	if !ok {
+		return false
+	}
+	op, f := lockCallF(es.X, recv, field)
+	return op == unlock && f == field
+}
+
+// isAnyUnlockStmt: st releases some mutex field of the receiver
+func isAnyUnlockStmt(st ast.Stmt, recv string) bool {
+	es, ok := st.(*ast.ExprStmt)
+	if !ok {
+		return false
+	}
+	op, _ := lockCallF(es.X, recv, "")
+	return op == "Unlock" || op == "RUnlock"
+}
+
+// exitsUnlocked: in the statement list l (and, recursively, in the blocks nested in it) every return statement is
+// directly preceded by the unlock of the region's mutex (other unlocks may stand in between), and the unlock occurs
+// nowhere else; n counts the unlocks seen.  top: l is the function body itself, whose end is an exit too.
+func exitsUnlocked(l []ast.Stmt, recv, field, unlock string, top bool, n *int) bool {
+	okAll := true
+	precededByUnlock := func(i int) bool {
+		for j := i - 1; j >= 0; j-- {
+			if isUnlockStmt(l[j], recv, field, unlock) {
+				return true
+			}
+			if !isAnyUnlockStmt(l[j], recv) {
+				return false
+			}
+		}
+		return false
+	}
+	followedByExit := func(i int) bool {
+		for j := i + 1; j < len(l); j++ {
+			if _, ok := l[j].(*ast.ReturnStmt); ok {
+				return true
+			}
+			if !isAnyUnlockStmt(l[j], recv) {
+				return false
+			}
+		}
+		return top // the end of the function body
+	}
+	for i, st := range l {
+		switch v := st.(type) {
+		case *ast.ReturnStmt:
+			if !precededByUnlock(i) {
+				okAll = false
+			}
+			// the returned expressions must not be computed after the unlock from shared state: they are evaluated after
+			// the unlock statement; only plain identifiers / literals / nil are accepted
+			for _, r := range v.Results {
+				switch r.(type) {
+				case *ast.Ident, *ast.BasicLit:
+				default:
+					okAll = false
+				}
+			}
+		case *ast.ExprStmt:
+			if isUnlockStmt(st, recv, field, unlock) {
+				*n++
+				if !followedByExit(i) {
+					okAll = false
+				}
+			}
+		case *ast.IfStmt:
+			if !exitsUnlocked(v.Body.List, recv, field, unlock, false, n) {
+				okAll = false
+			}
+			if v.Else != nil {
+				if eb, ok := v.Else.(*ast.BlockStmt); ok {
+					if !exitsUnlocked(eb.List, recv, field, unlock, false, n) {
+						okAll = false
+					}
+				} else {
+					okAll = false
+				}
+			}
+		case *ast.ForStmt:
+			if !exitsUnlocked(v.Body.List, recv, field, unlock, false, n) {
+				okAll = false
+			}
+		case *ast.RangeStmt:
+			if !exitsUnlocked(v.Body.List, recv, field, unlock, false, n) {
+				okAll = false
+			}
+		case *ast.BlockStmt:
+			if !exitsUnlocked(v.List, recv, field, unlock, false, n) {
+				okAll = false
+			}
+		case *ast.SwitchStmt, *ast.TypeSwitchStmt, *ast.SelectStmt:
+			okAll = false // not needed so far: fail closed
+		}
+	}
+	if top {
+		// falling off the end of the body is an exit: the last statements must contain the unlock
+		if len(l) == 0 {
+			return false
+		}
+		if _, isRet := l[len(l)-1].(*ast.ReturnStmt); !isRet {
+			if !precededByUnlock(len(l)) {
+				okAll = false
+			}
+		}
+	}
+	return okAll
+}
+
+// the function holds <recv>.<field> from its first statement to every exit: its first statement is the lock, and either
+// the next one is the deferred unlock and no other call on that mutex occurs, or every return (and the end of the body) is
+// directly preceded by the unlock and the unlock occurs nowhere else.  field "" : whatever mutex the first statement locks.
+// Returns the lock operation ("Lock" / "RLock") and the field, or "".
+func wholeBodyRegionF(fd *ast.FuncDecl, field string) (string, string) {
 	if fd == nil || len(fd.Body.List) < 2 {
-		return ""
+		return "", ""
 	}
 	r := recvName(fd)
 	es, ok := fd.Body.List[0].(*ast.ExprStmt)
 	if !ok {
-		return ""
+		return "", ""
 	}
-	op := lockCall(es.X, r, field)
+	op, f := lockCallF(es.X, r, field)
 	if op != "Lock" && op != "RLock" {
-		return ""
+		return "", ""
 	}
-	ds, ok := fd.Body.List[1].(*ast.DeferStmt)
-	if !ok {
-		return ""
+	unlock := "Unlock"
+	if op == "RLock" {
+		unlock = "RUnlock"
 	}
-	un := lockCall(ds.Call, r, field)
-	if (op == "Lock" && un != "Unlock") || (op == "RLock" && un != "RUnlock") {
-		return ""
-	}
-	n := 0
+	calls := 0
 	ast.Inspect(fd.Body, func(x ast.Node) bool {
 		if ce, ok := x.(*ast.CallExpr); ok {
-			if lockCall(ce, r, field) != "" {
-				n++
+			if o, _ := lockCallF(ce, r, f); o != "" {
+				calls++
 			}
 		}
 		return true
 	})
-	if n != 2 {
-		return ""
+	if ds, ok := fd.Body.List[1].(*ast.DeferStmt); ok {
+		if un, uf := lockCallF(ds.Call, r, f); un == unlock && uf == f && calls == 2 {
+			return op, f
+		}
+		return "", ""
 	}
+	n := 0
+	if exitsUnlocked(fd.Body.List[1:], r, f, unlock, true, &n) && n >= 1 && calls == n+1 {
+		return op, f
+	}
+	return "", ""
+}
+
+func wholeBodyRegion(fd *ast.FuncDecl, field string) string {
+	op, _ := wholeBodyRegionF(fd, field)
 	return op
 }
 
@@ -165,6 +315,59 @@ func hasGo(body ast.Node) bool {
 	return found
 }
 
+func rangesOverEntityIDs(rs *ast.RangeStmt) bool {
+	ce, ok := rs.X.(*ast.CallExpr)
+	if !ok {
+		return false
+	}
+	se, ok := ce.Fun.(*ast.SelectorExpr)
+	return ok && se.Sel.Name == "EntityIDs"
+}
+
+// cleanupLoopOK: the only way the loop skips an entity is the guard `!ok || entity.Persist` (or the same two tests as two
+// guards), and RemoveEntity is called at the top level of the loop body
+func cleanupLoopOK(rs *ast.RangeStmt) bool {
+	isNotOK := func(e ast.Expr) bool { ue, ok := e.(*ast.UnaryExpr); return ok && ue.Op == token.NOT }
+	isPersist := func(e ast.Expr) bool { se, ok := e.(*ast.SelectorExpr); return ok && se.Sel.Name == "Persist" }
+	skipsMissing, skipsPersistent, removes, other := false, false, false, false
+	for _, bs := range rs.Body.List {
+		switch v := bs.(type) {
+		case *ast.IfStmt:
+			isSkip := len(v.Body.List) == 1 && v.Else == nil
+			if isSkip {
+				if br, ok := v.Body.List[0].(*ast.BranchStmt); !ok || br.Tok != token.CONTINUE {
+					isSkip = false
+				}
+			}
+			if isSkip {
+				if be, ok := v.Cond.(*ast.BinaryExpr); ok && be.Op == token.LOR && isNotOK(be.X) && isPersist(be.Y) {
+					skipsMissing, skipsPersistent = true, true
+				} else if isNotOK(v.Cond) {
+					skipsMissing = true
+				} else if isPersist(v.Cond) {
+					skipsPersistent = true
+				} else {
+					other = true
+				}
+			} else if syncContains(v, func(x ast.Node) bool {
+				b2, ok := x.(*ast.BranchStmt)
+				return ok && (b2.Tok == token.CONTINUE || b2.Tok == token.BREAK)
+			}) {
+				other = true
+			}
+		case *ast.ExprStmt:
+			if ce2, ok := v.X.(*ast.CallExpr); ok {
+				if se2, ok := ce2.Fun.(*ast.SelectorExpr); ok && se2.Sel.Name == "RemoveEntity" {
+					removes = true
+				}
+			}
+		case *ast.BranchStmt, *ast.ReturnStmt:
+			other = true
+		}
+	}
+	return skipsMissing && skipsPersistent && removes && !other
+}
+
 func b(x bool) string {
 	if x {
 		return "true"
@@ -192,14 +395,25 @@ func main() {
 	// AddType
 	if fd := method(models, S, "AddType"); fd != nil {
 		r := recvName(fd)
-		lookup := syncContains(fd.Body, func(x ast.Node) bool {
+		param := ""
+		if fd.Type.Params != nil && len(fd.Type.Params.List) == 1 && len(fd.Type.Params.List[0].Names) == 1 {
+			param = fd.Type.Params.List[0].Names[0].Name
+		}
+		// the look-up: an index expression <recv>.<some field>[<the name parameter>]
+		lookup := param != "" && syncContains(fd.Body, func(x ast.Node) bool {
 			ie, ok := x.(*ast.IndexExpr)
 			if !ok {
 				return false
 			}
 			se, ok := ie.X.(*ast.SelectorExpr)
-			return ok && se.Sel.Name == "idIndex"
+			if !ok {
+				return false
+			}
+			id, ok := se.X.(*ast.Ident)
+			k, ok2 := ie.Index.(*ast.Ident)
+			return ok && ok2 && id.Name == r && k.Name == param
 		})
+		// the allocation: <recv>.<some field>.New()
 		alloc := syncContains(fd.Body, func(x ast.Node) bool {
 			ce, ok := x.(*ast.CallExpr)
 			if !ok {
@@ -210,18 +424,31 @@ func main() {
 				return false
 			}
 			fe, ok := se.X.(*ast.SelectorExpr)
-			if !ok || fe.Sel.Name != "ids" {
+			if !ok {
 				return false
 			}
 			id, ok := fe.X.(*ast.Ident)
 			return ok && id.Name == r
 		})
-		facts["addtype_atomic"] = wholeBodyRegion(fd, "mutex") == "Lock" && lookup && alloc && !hasGo(fd.Body)
+		op, _ := wholeBodyRegionF(fd, "")
+		facts["addtype_atomic"] = op == "Lock" && lookup && alloc && !hasGo(fd.Body)
 		if !facts["addtype_atomic"] {
-			notes = append(notes, fmt.Sprintf("AddType: region=%q lookup=%v alloc=%v", wholeBodyRegion(fd, "mutex"), lookup, alloc))
+			notes = append(notes, fmt.Sprintf("AddType: region=%q lookup=%v alloc=%v", op, lookup, alloc))
 		}
 	} else {
 		notes = append(notes, "AddType not found")
+	}
+	// the subscription mutex: the one Subscribe holds from its first statement to its return
+	subField := ""
+	if fd := method(models, S, "Subscribe"); fd != nil {
+		if op, f := wholeBodyRegionF(fd, ""); op == "Lock" && !hasGo(fd.Body) {
+			subField = f
+		}
+	}
+	facts["subscribe_exclusive"] = subField != ""
+	if subField == "" {
+		notes = append(notes, "Subscribe: not one exclusive region of a mutex of the store")
+		subField = "subscriptionMutex"
 	}
 	// Notify
 	if fd := method(models, S, "Notify"); fd != nil {
@@ -264,7 +491,7 @@ func main() {
 			}
 			return true
 		})
-		reg := wholeBodyRegion(fd, "subscriptionMutex")
+		reg := wholeBodyRegion(fd, subField)
 		facts["notify_relays_under_lock"] = reg != "" && calls && !escapes
 		if !facts["notify_relays_under_lock"] {
 			notes = append(notes, fmt.Sprintf("Notify: region=%q handler=%q called=%v escapes=%v", reg, h, calls, escapes))
@@ -275,15 +502,14 @@ func main() {
 	ex := func(names ...string) bool {
 		for _, n := range names {
 			fd := method(models, S, n)
-			if fd == nil || wholeBodyRegion(fd, "subscriptionMutex") != "Lock" || hasGo(fd.Body) {
-				notes = append(notes, n+": not one exclusive region of subscriptionMutex")
+			if fd == nil || wholeBodyRegion(fd, subField) != "Lock" || hasGo(fd.Body) {
+				notes = append(notes, n+": not one exclusive region of the subscription mutex ("+subField+")")
 				return false
 			}
 		}
 		return true
 	}
 	facts["unsubscribe_exclusive"] = ex("Unsubscribe", "UnsubscribeByParticipant")
-	facts["subscribe_exclusive"] = ex("Subscribe")
 	// callers of Notify in package websocket
 	nNotify, okAll := 0, true
 	for _, f := range ws {
@@ -297,11 +523,21 @@ func main() {
 				return true
 			}
 			nNotify++
-			fl, ok := ce.Args[1].(*ast.FuncLit)
-			if !ok {
+			// the handler: a function literal, or a method value / function of this package named by its last identifier
+			var body *ast.BlockStmt
+			switch a := ce.Args[1].(type) {
+			case *ast.FuncLit:
+				body = a.Body
+			case *ast.SelectorExpr:
+				body = uniqueFuncBody(ws, a.Sel.Name)
+			case *ast.Ident:
+				body = uniqueFuncBody(ws, a.Name)
+			}
+			if body == nil {
 				okAll = false
 				return true
 			}
+			fl := struct{ Body *ast.BlockStmt }{body}
 			relays := false
 			ast.Inspect(fl.Body, func(y ast.Node) bool {
 				if c2, ok := y.(*ast.CallExpr); ok {
@@ -369,52 +605,29 @@ func main() {
 		iloop, irm := -1, -1
 		loopOK := false
 		for i, st := range fd.Body.List {
-			if rs, ok := st.(*ast.RangeStmt); ok && iloop < 0 {
-				if ce, ok := rs.X.(*ast.CallExpr); ok {
-					if se, ok := ce.Fun.(*ast.SelectorExpr); ok && se.Sel.Name == "EntityIDs" {
-						iloop = i
-						// body: the only way to skip an entity is the guard `!ok || entity.Persist`, and RemoveEntity is called
-						// at the top level of the loop body
-						skips, removes, other := 0, false, false
-						for _, bs := range rs.Body.List {
-							switch v := bs.(type) {
-							case *ast.IfStmt:
-								isSkip := len(v.Body.List) == 1 && v.Else == nil
-								if isSkip {
-									if br, ok := v.Body.List[0].(*ast.BranchStmt); !ok || br.Tok != token.CONTINUE {
-										isSkip = false
+			if iloop < 0 {
+				if rs, ok := st.(*ast.RangeStmt); ok && rangesOverEntityIDs(rs) {
+					iloop, loopOK = i, cleanupLoopOK(rs)
+				} else if es, ok := st.(*ast.ExprStmt); ok {
+					// a helper method of the handler whose body is that loop (and nothing that could skip it)
+					if ce, ok := es.X.(*ast.CallExpr); ok {
+						if se, ok := ce.Fun.(*ast.SelectorExpr); ok {
+							if hd := method(ws, "RealtimeHandler", se.Sel.Name); hd != nil && hd != fd {
+								for j, hs := range hd.Body.List {
+									if rs, ok := hs.(*ast.RangeStmt); ok && rangesOverEntityIDs(rs) {
+										pre := true
+										for _, b := range hd.Body.List[:j] {
+											if syncContains(b, func(x ast.Node) bool { _, ok := x.(*ast.ReturnStmt); return ok }) {
+												pre = false
+											}
+										}
+										if pre {
+											iloop, loopOK = i, cleanupLoopOK(rs)
+										}
 									}
 								}
-								if isSkip {
-									be, ok := v.Cond.(*ast.BinaryExpr)
-									good := ok && be.Op == token.LOR
-									if good {
-										ue, ok1 := be.X.(*ast.UnaryExpr)
-										se2, ok2 := be.Y.(*ast.SelectorExpr)
-										good = ok1 && ue.Op == token.NOT && ok2 && se2.Sel.Name == "Persist"
-									}
-									if good {
-										skips++
-									} else {
-										other = true
-									}
-								} else if syncContains(v, func(x ast.Node) bool {
-									b2, ok := x.(*ast.BranchStmt)
-									return ok && (b2.Tok == token.CONTINUE || b2.Tok == token.BREAK)
-								}) {
-									other = true
-								}
-							case *ast.ExprStmt:
-								if ce2, ok := v.X.(*ast.CallExpr); ok {
-									if se2, ok := ce2.Fun.(*ast.SelectorExpr); ok && se2.Sel.Name == "RemoveEntity" {
-										removes = true
-									}
-								}
-							case *ast.BranchStmt, *ast.ReturnStmt:
-								other = true
 							}
 						}
-						loopOK = skips == 1 && removes && !other
 					}
 				}
 			}
